@@ -376,7 +376,9 @@ class Report:
         self.violations.append(v)
 
     def finish(self, floor=1):
-        os.makedirs(os.path.join(VERIF, "evidence"), exist_ok=True)
+        # mutation runs (tools/mutest.py) redirect their evidence so that the committed files only ever describe /repo itself
+        evdir = os.environ.get("VERIF_EVIDENCE_DIR") or os.path.join(VERIF, "evidence")
+        os.makedirs(evdir, exist_ok=True)
         wall = time.time() - self.t0
         for key, ent in self.known_hit.items():
             print("KNOWN-FINDING: property=%s %s (%s; %d occurrences this run)" % (self.prop, key, ent["what"], ent["n"]))
@@ -411,7 +413,7 @@ class Report:
         cov.update(self.extra)
         ev = dict(property_id=self.prop, tier=self.tier, seed=int(self.seed), level=self.level, coverage=cov,
                   assumptions=self.assumptions, wall_s=round(wall, 2), violations=len(seen))
-        with open(os.path.join(VERIF, "evidence", "%s.json" % self.prop), "w") as fh:
+        with open(os.path.join(evdir, "%s.json" % self.prop), "w") as fh:
             json.dump(ev, fh, indent=1, default=str)
         print("%s %s seed=%s: evaluations=%d distinct_nontrivial=%d violations=%d known=%d inconclusive=%d wall=%.1fs" % (
             self.prop, self.tier, self.seed, self.evaluations, len(self.distinct), len(seen), len(self.known_hit),
